@@ -280,6 +280,15 @@ Fixpoint self_ready (tr : list event) : bool :=
   | _ :: r => self_ready r
   end.
 
+(* a write to a session's state bits (translator table [state_writes]) only adds
+   bits, or is the one documented clearing: Ready, on an error return of negotiateSession *)
+Definition write_adds (w : bytes * bytes * bytes * bytes) : bool :=
+  let '(_, _, op, _) := w in bytes_eqb op (str "|=").
+Definition write_is_ready_clear (w : bytes * bytes * bytes * bytes) : bool :=
+  let '(file, fn, op, rhs) := w in
+  bytes_eqb file (str "session.go") && bytes_eqb fn (str "negotiateSession") &&
+  bytes_eqb op (str "&^=") && bytes_eqb rhs (str "Ready").
+
 (* ------------------------------------------------------------------ witnesses and examples (definitions only) *)
 
 Definition xa : bytes := str "urn:x:a".
@@ -293,14 +302,14 @@ Definition hdr : pitem := mkItem false (PHeader HGood).
    in its own mask (the resource-binding pattern): established, the other pending *)
 Definition w1_run : result :=
   run cfg_ab 0 [hdr; mkItem false (PFeatures [FC xa (str "a") true false; FC xb (str "b") true false])] []
-      [mkO st_Ready false false] [xa].
+      [mkO st_Ready false false RWWrap] [xa].
 
 (* W2 (a witness against the pinned tree, repaired since): a voluntary feature
    returns Ready together with a new connection; the Ready bit is ignored and the
    stream restarts *)
 Definition w2_run : result :=
   run cfg_ab 0 [hdr; mkItem false (PFeatures [FC xa (str "a") false false])] []
-      [mkO st_Ready true false] [xa].
+      [mkO st_Ready true false RWWrap] [xa].
 
 (* W3 (a witness against the tree before c4806ad, repaired since): the
    advertisement marks b required while b's prerequisite (Authn) does not hold
@@ -309,7 +318,7 @@ Definition fb_authn : feature := mkF xb (str "b") st_Authn 0 true KAbstract true
 Definition cfg_w3 : config := mkCfg [mkF xa (str "a") 0 0 true KAbstract false false; fb_authn] false false true (str "example.net") None false.
 Definition w3_run : result :=
   run cfg_w3 0 [hdr; mkItem false (PFeatures [FC xa (str "a") false false; FC xb (str "b") true false])] []
-      [mkO st_Authn false false; mkO st_Ready false false] [xa; xb].
+      [mkO st_Authn false false RWWrap; mkO st_Ready false false RWWrap] [xa; xb].
 
 (* W5: two configured features share a name space; the advertisement marks the
    first (negotiable) required and then names the second (informational): the
@@ -335,21 +344,21 @@ Definition trio_client : result :=
       [hdr; mkItem false (PFeatures [adv f_tls true; adv f_sasl true; adv f_bind true]);
        hdr; mkItem false (PFeatures [adv f_bind true; adv f_sasl true]);
        hdr; mkItem false (PFeatures [adv f_bind true])] []
-      [mkO st_Secure true false; mkO st_Authn true false; mkO st_Ready false false]
+      [mkO st_Secure true false RWWrap; mkO st_Authn true false RWWrap; mkO st_Ready false false RWWrap]
       [ft_starttls_space; ft_sasl_space; ft_bind_space].
 (* the same configuration on the receiving side, the peer selecting in order *)
 Definition sel (f : feature) : pitem := mkItem false (PElem (f_space f) (f_local f)).
 Definition trio_server : result :=
   run cfg_trio st_Received
       [hdr; sel f_tls; hdr; sel f_sasl; hdr; mkItem false (PIq (f_space f_bind) (f_local f_bind))] []
-      [mkO st_Secure true false; mkO st_Authn true false; mkO st_Ready false false] [].
+      [mkO st_Secure true false RWWrap; mkO st_Authn true false RWWrap; mkO st_Ready false false RWWrap] [].
 (* the receiver refuses: SASL selected before STARTTLS (not advertised yet) *)
 Definition trio_server_early : result :=
   run cfg_trio st_Received [hdr; sel f_sasl] [] [] [].
 (* the forced STARTTLS attempt: first list empty *)
 Definition trio_forced : result :=
   run cfg_trio 0 [hdr; mkItem false (PFeatures []); hdr; mkItem false (PFeatures [])] []
-      [mkO st_Secure true false] [ft_starttls_space].
+      [mkO st_Secure true false RWWrap] [ft_starttls_space].
 (* two voluntary features and a required one: both map orders of the voluntary
    ones are legal, taking the required one first is not *)
 Definition fv1 : feature := mkF xa (str "a") 0 0 true KAbstract false false.
@@ -359,7 +368,7 @@ Definition fr3 : feature := mkF xc (str "c") 0 0 true KAbstract true false.
 Definition cfg_vvr : config := mkCfg [fv1; fv2; fr3] false false true (str "example.net") None false.
 Definition vvr (choices : list bytes) : result :=
   run cfg_vvr 0 [hdr; mkItem false (PFeatures [adv fr3 true; adv fv1 false; adv fv2 false]); mkItem false (PFeatures [])] []
-      [mkO 0 false false; mkO 0 false false; mkO 0 false false] choices.
+      [mkO 0 false false RWWrap; mkO 0 false false RWWrap; mkO 0 false false RWWrap] choices.
 Fixpoint negs (tr : list event) : list (name * N) :=
   match tr with
   | [] => []
@@ -374,4 +383,4 @@ Definition fv_a : feature := mkF xa (str "a") 0 0 true KAbstract false false.
 Definition cfg_w6 : config := mkCfg [fv_a; fa2_info; fr3] false false true (str "example.net") None false.
 Definition w6_run : result :=
   run cfg_w6 0 [hdr; mkItem false (PFeatures [FC xa (str "a") false false; FC xa (str "a2") false false; FC xc (str "c") true false])] []
-      [mkO 0 false false] [xc].
+      [mkO 0 false false RWWrap] [xc].
